@@ -178,7 +178,8 @@ def close_rule(R, prog):
                    require=lambda st, ev: 'S:closed' not in st or 'G:this->m_closed.exchange(true, std::memory_order_acq_rel)=T' in st or
                    any(re.match(r'^G:this->m_closed\.exchange\(.*\)=T$', x) for x in st) or
                    ('S:n_send_cv' in st and 'S:n_recv_cv' in st) or
-                   (('S:n_send_sem' in st or any(re.match(r'^G:senders <= 0=T$', x) for x in st)) and ('S:n_recv_sem' in st or any(re.match(r'^G:receivers <= 0=T$', x) for x in st))),
+                   (('S:n_send_sem' in st or any(('G:%s <= 0=T' % n) in st for n in K.locals_defined_only_by(f, r'^this->m_senders_waiting\.load\(.*\)$'))) and
+                    ('S:n_recv_sem' in st or any(('G:%s <= 0=T' % n) in st for n in K.locals_defined_only_by(f, r'^this->m_receivers_waiting\.load\(.*\)$')))),
                    key_fn=lambda ev: '%s.K7:%s:wakes-both-sides' % (P, fn), describe=lambda ev: 'first close wakes both sides', min_sites=1, what='exit')
 
 
